@@ -479,14 +479,25 @@ def o_deadlock_report(case, obs):
     if sum(pend.values()) == 0:
         return "cmd %d: verdict %s although every sent message was processed" % (ff - 1, res)
     if k == "dead":
-        listed = dict(x.split("=") for x in res[5:].split(","))
-        names = {qname(i): i for i in added}
-        for nm, n in listed.items():
-            if nm not in names:
-                return "cmd %d: Deadlock lists '%s', which is not a model of the simulation (%s)" % (ff - 1, nm, sorted(names))
-            i = names[nm]
-            if not (1 <= int(n) <= min(models[i]["cap"], pend[i])):
-                return "cmd %d: Deadlock reports %s messages for %s; capacity %d, sent-unprocessed %d" % (ff - 1, n, nm, models[i]["cap"], pend[i])
+        # names need not be unique (unnamed models are all reported as <unknown>): the report is a multiset
+        listed = {}
+        for x in res[5:].split(","):
+            nm, n = x.split("=")
+            listed.setdefault(nm, []).append(int(n))
+        byname = {}
+        for i in added:
+            byname.setdefault(qname(i), []).append(i)
+        for nm, counts in listed.items():
+            if nm not in byname:
+                return "cmd %d: Deadlock lists '%s', which is not a model of the simulation (%s)" % (ff - 1, nm, sorted(byname))
+            stuck = [i for i in byname[nm] if pend[i] >= 1]
+            if len(counts) != len(stuck):
+                return "cmd %d: Deadlock lists %d model(s) named %s but %d model(s) of that name hold unprocessed messages (%s)" % (
+                    ff - 1, len(counts), nm, len(stuck), res)
+            bounds = sorted((min(models[i]["cap"], pend[i]) for i in stuck), reverse=True)
+            for n, bnd in zip(sorted(counts, reverse=True), bounds):
+                if not (1 <= n <= bnd):
+                    return "cmd %d: Deadlock reports %d messages for a model named %s; capacity / sent-unprocessed bounds of the stuck models of that name: %s" % (ff - 1, n, nm, bounds)
         for i in added:
             if pend[i] >= 1 and qname(i) not in listed:
                 # a message counted as pending may still be held by a blocked sender, but then the
@@ -811,4 +822,57 @@ def o_timeout(c, obs):
             fired, tfail = j, t
         elif j == c["slow_cmd"]:
             return "the call running a handler that overruns the 1 s timeout by 4 s returned %s, not Timeout" % res
+    return None
+
+
+def o_sink_closure(case, obs):
+    """C03/C04: what a sink holds is what was sent to it.  For every EventBuffer sink that is never closed and
+    never overflows, at each read the multiset of values read so far equals the multiset of values the
+    invocations observed so far wrote to it through accepting connections (after map / filter_map), over
+    the prefix of commands that returned without a fatal error."""
+    from collections import Counter
+    sinks = case.get("sinks", [])
+    if not sinks or any(c[0] == "so" for c in case["cmds"]):
+        return None
+    ff = first_fatal(obs)
+    upto = len(obs) if ff is None else ff
+    exp = [Counter() for _ in sinks]
+    got = [Counter() for _ in sinks]
+    def add_children(kind_, m, idx, v):
+        for ch in children(case, kind_, m, idx, v):
+            if ch[0] == "S" and ch[1] < len(sinks):
+                exp[ch[1]][ch[2]] += 1
+    for j in range(upto):
+        res, t, es = obs[j]
+        for e in es:
+            f = e.split(":")
+            if f[0] in ("H", "P"):
+                add_children(f[0], int(f[1]), int(f[2]), int(f[3]))
+            elif f[0] == "I":
+                add_children("I", int(f[1]), 0, 0)
+        if j >= 1:
+            c = case["cmds"][j - 1]
+            if c[0] == "rs" and res.startswith("sink:") and "overflowed" not in res:
+                k = c[1]
+                if k < len(sinks) and sinks[k][0] == "buf":
+                    for x in res[5:].split(","):
+                        if x:
+                            got[k][int(x)] += 1
+                    if sum(exp[k].values()) <= sinks[k][1] and got[k] != exp[k]:
+                        missing = list((exp[k] - got[k]).elements())[:6]
+                        extra = list((got[k] - exp[k]).elements())[:6]
+                        return "cmd %d: sink %d: written-but-not-in-the-sink %s, in-the-sink-but-never-written %s" % (j - 1, k, missing, extra)
+    return None
+
+
+def o_norecip_broadcast(c, obs):
+    """C11 (family norecip-broadcast): the call in which the emitter (model 0, input 0) broadcasts to a dropped
+    mailbox and to live models with full mailboxes must fail with NoRecipient naming the emitter."""
+    if "norecip-broadcast" not in c.get("tags", ()):
+        return None
+    for j, (res, t, ents) in enumerate(obs):
+        if any(e.startswith("H:0:0:") for e in ents):
+            if res != "norecip:0":
+                return "cmd %d: the emitter sent to a dropped mailbox (in a broadcast whose other recipients were full) but the call returned %s, not NoRecipient(m0)" % (j - 1, res)
+            return None
     return None
